@@ -11,22 +11,9 @@ From Srtla Require Import Base Constants FConstants.
 From Srtla Require Export Run_Sel.
 Local Open Scope Z_scope.
 
-(** "usable (registered, connected and not timed out)" in the property's own words:
-    registered = the REG3 handshake completed (phase is not Registering); connected = the flag;
-    timed out = the last datagram received on the link is at least [timeout] ms old (a connected
-    link that has not received anything yet is not timed out: its clock has not started). *)
-Definition usable_spec (now timeout : Z) (c : link) : bool :=
-  l_conn c &&
-  match l_phase c with PReg => false | _ => true end &&
-  match l_lastrx c with
-  | None => true
-  | Some lr => Z.max 0 (now - lr) <? timeout
-  end.
-
 (** Clause numbers (detail codes):
     1  a usable uplink exists but the scheduler returned None (blackout)
-    2  a usable uplink exists and the scheduler returned an index outside the link set
-    9  the select changed a field it has no business changing (reported by the harness) *)
+    2  a usable uplink exists and the scheduler returned an index outside the link set *)
 Definition mon_select (s : list link) (now : Z) (cfg : config) (exps : list float) (o : sobs) : N :=
   if negb (forallb wf_linkb s && forallb exp_okb exps) then 0%N     (* outside the quantifier *)
   else if existsb (usable_spec now (c_timeout cfg)) s then
